@@ -302,6 +302,9 @@ def judge(case, impl, model):
     cid, lines = case
     if impl and impl[0] == 'MARK hostile':
         return 'crash behaviour differs from the model on a hostile scene: implementation %s, model %s' % (impl[1:], model[1:] if model else model)
+    if impl and impl[0].startswith('PANIC'):
+        return ('the implementation panics (%s) while rendering the frame; the model, proved crash-free by C15_no_crash, '
+                'renders it' % impl[0])
     d = first_diff(impl, model)
     txt = 'frame differs from the model (the model is proved equal to the DMG composition by C15_pixel)'
     if d:
